@@ -252,9 +252,10 @@ func (s *Server) DialClient(ctx context.Context, link *protocol.Link) (net.Conn,
 		return clientConn, nil
 	}
 
-	if isNoRoute {
+	if isNoRoute || len(ret.routes) > 0 {
+		// the hostname has routes but none of their clients could be reached
 		return nil, tun.ErrTunnelClientNotConnected
 	}
 
-	return nil, tun.ErrDestinationNotFound // fallback to not found
+	return nil, tun.ErrDestinationNotFound // no routes at all
 }
